@@ -59,6 +59,10 @@ type peer struct {
 
 var scripts = []string{"one", "halves", "bytes", "pause"}
 
+// sockTimeout is the socket timeout the standard transport is opened with (lowered by the idle cells: it bounds
+// connection set-up, not how long an established session may stay quiet).
+var sockTimeout = 10 * time.Second
+
 func sendScript(w io.Writer, b []byte, sc string) {
 	switch sc {
 	case "halves":
@@ -68,6 +72,13 @@ func sendScript(w io.Writer, b []byte, sc string) {
 	case "bytes":
 		for i := range b {
 			_, _ = w.Write(b[i : i+1])
+		}
+	case "idle":
+		// the peer says nothing for longer than the (lowered) socket timeout of the session, then carries on
+		_, _ = w.Write(b[:1])
+		time.Sleep(1500 * time.Millisecond)
+		if len(b) > 1 {
+			_, _ = w.Write(b[1:])
 		}
 	case "pause":
 		_, _ = w.Write(b[:1])
@@ -146,7 +157,7 @@ func mkPeer(kind, dir, sc string, data []byte, tmp string) (*peer, error) {
 		}
 		return &peer{
 			open: func(rs int) (*transport.Transport, error) {
-				o := []util.Option{options.WithPort(srv.Port), options.WithAuthUsername("admin"), options.WithAuthPassword(password), options.WithAuthNoStrictKey(), options.WithTransportReadSize(rs), options.WithTimeoutSocket(10 * time.Second)}
+				o := []util.Option{options.WithPort(srv.Port), options.WithAuthUsername("admin"), options.WithAuthPassword(password), options.WithAuthNoStrictKey(), options.WithTransportReadSize(rs), options.WithTimeoutSocket(sockTimeout)}
 				if kind == "standard-netconf" {
 					o = append(o, netconfConn)
 				}
@@ -659,6 +670,10 @@ func scenarios(tier string) []sched.Scenario {
 			unblockCell(w, kind, "peer-closes")
 			if !strings.HasPrefix(kind, "system-pty") {
 				unblockCell(w, kind, "close-silent-peer")
+				// an established session that stays quiet for longer than the socket timeout loses nothing
+				sockTimeout = time.Second
+				gridCell(w, kind, 64, 99, "idle", "down")
+				sockTimeout = 10 * time.Second
 			}
 		}})
 	}
@@ -684,7 +699,7 @@ func TestCheck(t *testing.T) {
 	sched.Main(t, sched.Check{
 		ID:    "C16",
 		Level: "exploration",
-		Rule:  "finite grid, every cell executed once over real OS objects: transport {standard ssh shell, standard ssh netconf subsystem (in-process x/crypto/ssh server), telnet over loopback TCP, system transport over a pty with a stand-in peer in raw mode (shell and netconf-subsystem flavours)} x read size {1,7,64,8192} x payload size {1,n-1,n,n+1,2n+1,3n} (bytes cycling through 0x00-0xff) x peer script {one write, two halves, byte at a time, write-pause-write} x direction {peer->client, client->peer, echo}; plus a telnet opening split into two TCP segments at every offset; plus a read blocked when the transport is force-closed (also after the peer has gone silent without closing anything: standard, telnet) / when the peer goes away, and end-to-end CLI and NETCONF sessions whose results must equal those obtained over the ideal fake transport; distinct = distinct cells",
+		Rule:  "finite grid, every cell executed once over real OS objects: transport {standard ssh shell, standard ssh netconf subsystem (in-process x/crypto/ssh server), telnet over loopback TCP, system transport over a pty with a stand-in peer in raw mode (shell and netconf-subsystem flavours)} x read size {1,7,64,8192} x payload size {1,n-1,n,n+1,2n+1,3n} (bytes cycling through 0x00-0xff) x peer script {one write, two halves, byte at a time, write-pause-write} x direction {peer->client, client->peer, echo}; plus a telnet opening split into two TCP segments at every offset; plus a read blocked when the transport is force-closed (also after the peer has gone silent without closing anything: standard, telnet) / when the peer goes away, a session that stays quiet for longer than its socket timeout (standard, telnet), and end-to-end CLI and NETCONF sessions whose results must equal those obtained over the ideal fake transport; distinct = distinct cells",
 		Assumptions: []string{
 			"real sockets, ptys and crypto/ssh cannot run under the controlled scheduler: kernel scheduling and TCP/pty buffering are not enumerated, each cell is one run (stated limit)",
 			"pty leg: the stand-in peer switches the pty to raw mode and prints READY before the session counts as up",
